@@ -40,7 +40,7 @@ from ..exc import ExcModel
 from ..loader import AnalysisError, FunctionInfo, walk_scope
 from ..resolve import last_attr
 from ..util import calls, names_in, txt
-from ._g1_helpers import Ev, ExcObj, ExtRef, Obj, Opaque, lang_compare, raw_model, regex_const, spec_table
+from ._g1_helpers import anchor_fn, Ev, ExcObj, ExtRef, Obj, Opaque, lang_compare, raw_model, regex_const, spec_table
 
 META = {
     "text": "Table-driven finite-domain evaluation of the proof gate + verify_proof extracted from the AST against a literal transcription of "
@@ -271,7 +271,7 @@ def _req(raw):
                methods={"get_header": lambda name, default=None, **kw: raw if str(name).lower() == "vgi-proxy-proof" else default})
 
 
-def run(ctx: Ctx) -> None:  # noqa: C901
+def _run_impl(ctx: Ctx, evs: list) -> None:  # noqa: C901
     ctx.explanation = META["text"]
     ctx.not_decided = ("agreement on header strings outside the representative grammar (the regex clauses are exhaustive, the step order is decided on representatives); "
                        "strength of HMAC-SHA256; the NonceCache itself (C23); wall-clock behaviour when no clock is injected.")
@@ -282,8 +282,8 @@ def run(ctx: Ctx) -> None:  # noqa: C901
     ]
     ctx.trusted += ["G1 evaluator (sa/props/_g1_helpers.py): Python expression/statement semantics for the supported subset", "ref_verify / ref_mint transcription of the spec"]
     model = ExcModel(ctx.repo, ctx.res)
-    verify_fi = ctx.fn(VERIFY)
-    gate_fi = ctx.fn(GATE)
+    verify_fi = anchor_fn(ctx, VERIFY)
+    gate_fi = anchor_fn(ctx, GATE)
     mod = verify_fi.module
 
     # ------------------------------------------------------------------ oracle drift guard
@@ -300,7 +300,7 @@ def run(ctx: Ctx) -> None:  # noqa: C901
     used: list[tuple[str, int, str, ast.AST, FunctionInfo]] = []  # (pattern, flags, call kind, node, fi)
     helpers = [t for c in calls(verify_fi) for t in ctx.res.resolve(verify_fi, c, heuristic=False, count=False) if t.cls is None and t.module is verify_fi.module and t.fq != VERIFY]
     verify_scope = {verify_fi.fq} | {h.fq for h in helpers}
-    for fi in (verify_fi, *dict.fromkeys(helpers), ctx.fn(f"{PROOF}:mint_proof"), ctx.fn(f"{PROOF}:derive_secret"), ctx.fn(f"{CONFIG}.__post_init__")):
+    for fi in (verify_fi, *dict.fromkeys(helpers), anchor_fn(ctx, f"{PROOF}:mint_proof"), anchor_fn(ctx, f"{PROOF}:derive_secret"), anchor_fn(ctx, f"{CONFIG}.__post_init__")):
         direct: set[str] = set()
         kinds: set[str] = set()
         for c in calls(fi):
@@ -455,6 +455,7 @@ def run(ctx: Ctx) -> None:  # noqa: C901
     # ------------------------------------------------------------------ RF-ABS: table evaluation
     rec = _Rec()
     ev = Ev(ctx, externals=_externals(rec), overrides={NONCE_CACHE: lambda _ev, a, k: _nonce_oracle(rec, frozenset())})
+    evs.append(ev)
     verify = ev.func(VERIFY)
     factory = ev.func(GATE_FACTORY)
     config_cls = ev.class_value(CONFIG)
@@ -595,13 +596,13 @@ def run(ctx: Ctx) -> None:  # noqa: C901
     ev.reset()
     canon = ev.func(f"{PROOF}:canonical_string")
     k, v = ev.outcome(canon, "K-1", "123", N0, "o:1/x")
-    ctx.check(k == "return" and v == ref_canonical("K-1", "123", N0, "o:1/x"), "RF-TABLE", "canonical-string-per-spec-4", ctx.fn(f"{PROOF}:canonical_string"), None,
+    ctx.check(k == "return" and v == ref_canonical("K-1", "123", N0, "o:1/x"), "RF-TABLE", "canonical-string-per-spec-4", anchor_fn(ctx, f"{PROOF}:canonical_string"), None,
               ok="canonical_string = prefix NUL kid NUL ts NUL nonce NUL origin_id", bad=f"canonical_string(...) = {v!r}, §4 says {ref_canonical('K-1', '123', N0, 'o:1/x')!r}")
     mint = ev.func(f"{PROOF}:mint_proof")
     ev.reset()
     k, v = ev.outcome(mint, S2, "k1-v2", ORIGIN, now=NOW, nonce=N1)
     want_tok = ref_mint(S2, "k1-v2", ORIGIN, str(NOW), N1)
-    ctx.check(k == "return" and v == want_tok, "RF-TABLE", "mint-proof-per-spec-3", ctx.fn(f"{PROOF}:mint_proof"), None,
+    ctx.check(k == "return" and v == want_tok, "RF-TABLE", "mint-proof-per-spec-3", anchor_fn(ctx, f"{PROOF}:mint_proof"), None,
               ok="mint_proof emits v1.kid.ts.nonce.b64url(HMAC-SHA256(secret, canonical))", bad=f"mint_proof(...) = {v!r}, spec construction gives {want_tok!r}")
 
 
@@ -620,3 +621,12 @@ def _inside_handler(cfg, node: ast.AST) -> bool:
             return True
         cur = cfg.parent.get(id(cur))
     return False
+
+
+def run(ctx: Ctx) -> None:
+    evs: list = []
+    try:
+        _run_impl(ctx, evs)
+    finally:
+        for e in evs:
+            ctx.note(e.stats())
